@@ -66,6 +66,36 @@ func provenVote(e *guardEnv, h uint64) {
 	e.nv.pp.hash, e.nvBk = hashOfBody(b.body), b
 }
 
+// validProofFor: a prepared proof of view pv for block b signed by that view's leader and every other member the adversary holds
+func validProofFor(e *guardEnv, h, pv uint64, b *vBlock) proofD {
+	leader := leaderAt(e.cl, h, pv)
+	pr := proofD{present: true, pp: ref(protocol.LEAN_HELIX_PREPREPARE, h, pv, b), ppBy: leader, p: ref(protocol.LEAN_HELIX_PREPARE, h, pv, b)}
+	for i := 0; i < e.cl.nMembers; i++ {
+		if !e.cl.ids[i].Equal(leader) && e.cl.byz[i] {
+			pr.pBy, pr.pModes = append(pr.pBy, e.cl.ids[i]), append(pr.pModes, "")
+		}
+	}
+	return pr
+}
+
+// shieldedOlderLock: see the deviation list; order = positions of (older lock, garbage, newer lock) among the first three votes
+func shieldedOlderLock(e *guardEnv, h uint64, order [3]int) {
+	if e.tv < 6 || len(e.vds) < 3 {
+		return
+	}
+	b1, b3, g := e.r.adv.newBody(e.r, h, false), e.r.adv.newBody(e.r, h, false), e.r.adv.newBody(e.r, h, false)
+	older, newer := validProofFor(e, h, e.tv-5, b1), validProofFor(e, h, e.tv-3, b3)
+	garbage := validProofFor(e, h, e.tv-1, g)
+	garbage.p.v = 0
+	senders := []primitives.MemberId{e.vds[0].sender, e.vds[1].sender, e.vds[2].sender}
+	proofs := []proofD{older, garbage, newer}
+	for k := 0; k < 3; k++ {
+		e.vds[order[k]].proof = proofs[k]
+		e.vds[order[k]].sender = senders[order[k]]
+	}
+	e.nv.pp.hash, e.nvBk = hashOfBody(b1.body), b1
+}
+
 func cmdGuards(args []string) int {
 	fs := flag.NewFlagSet("guards", flag.ExitOnError)
 	outPath := fs.String("out", "guards.ndjson", "")
@@ -247,6 +277,15 @@ func cmdGuards(args []string) int {
 			provenVote(e, h)
 			e.vds[0].proof.pBy, e.vds[0].proof.pModes = e.vds[0].proof.pBy[:1], e.vds[0].proof.pModes[:1]
 		}},
+		// an OLDER lock re-proposed: one vote proves B1 in view tv-5 (when that exists: tv >= 6), one proves B3 in view tv-3, and a third
+		// vote carries a garbage proof whose two block references name different views (PREPREPARE ref: tv-1, PREPARE ref: 0).  The
+		// NEW_VIEW proposes B1.  Whatever the order of the votes, it must not be followed (the highest VALID proof is B3's).
+		{"older_lock_shielded_by_split_views_proof_order_012", func(e *guardEnv) { shieldedOlderLock(e, h, [3]int{0, 1, 2}) }},
+		{"older_lock_shielded_by_split_views_proof_order_021", func(e *guardEnv) { shieldedOlderLock(e, h, [3]int{0, 2, 1}) }},
+		{"older_lock_shielded_by_split_views_proof_order_102", func(e *guardEnv) { shieldedOlderLock(e, h, [3]int{1, 0, 2}) }},
+		{"older_lock_shielded_by_split_views_proof_order_120", func(e *guardEnv) { shieldedOlderLock(e, h, [3]int{1, 2, 0}) }},
+		{"older_lock_shielded_by_split_views_proof_order_201", func(e *guardEnv) { shieldedOlderLock(e, h, [3]int{2, 0, 1}) }},
+		{"older_lock_shielded_by_split_views_proof_order_210", func(e *guardEnv) { shieldedOlderLock(e, h, [3]int{2, 1, 0}) }},
 		{"one_vote_with_proof_of_other_instance", func(e *guardEnv) { // a lock "proof" of another instance must not steer the proposal
 			b := other(e)
 			pv := e.tv - 1
